@@ -1,5 +1,6 @@
 import Resynth.Model.Cli
 import Resynth.Gen.Stdlib
+import Resynth.Spec.Pcap
 /-!
 # Line-protocol driver over the model: one request per line, one response per line.
 Mirrors /verif/harness (which runs the real Rust code) request for request.
@@ -222,6 +223,21 @@ def cmdProg (args : List String) : String :=
       s!"{fmtOutcome r.outcome} file={hexOrDash r.file} warnings={",".intercalate (r.warnings.map fmtLoc)} times={",".intercalate (r.emitted.map fun e => toString e.1)}"
   | _ => "bad-request"
 
+/-- `oracle <name> <hex>…`: the executable Spec predicates, run on bytes the implementation produced -/
+def cmdOracle (args : List String) : String :=
+  match args with
+  | ["pcap", h] =>
+    match ofHex h with
+    | none => "bad-request"
+    | some b =>
+      match Spec.parsePcap b with
+      | none => "bad unparsable"
+      | some (_, rs) =>
+        if Spec.pcapWellFormed b then
+          s!"ok {rs.length} {",".intercalate (rs.map fun r => s!"{r.time}:{r.len}")}"
+        else "bad fields"
+  | _ => "bad-request"
+
 def dispatch (line : String) : String :=
   match (line.trimAscii.toString.splitOn " ").filter (· != "") with
   | [] => "bad-request"
@@ -236,6 +252,7 @@ def dispatch (line : String) : String :=
     | "call" => cmdCall args
     | "lit" => cmdLit args
     | "prog" => cmdProg args
+    | "oracle" => cmdOracle args
     | _ => "bad-request"
 
 partial def loop (h : IO.FS.Stream) (out : IO.FS.Stream) : IO Unit := do
